@@ -10,6 +10,17 @@
 (* under plain, dot-dot, sibling-directory and symbolic-link names.         *)
 (*                                                                         *)
 (* MC_FileLogger.cfg       Design = "repaired": all properties hold        *)
+(* MC_FileLogger_env.cfg   the same with environment faults between the    *)
+(*                         actions (somebody else appends to / removes /   *)
+(*                         cuts short a file, also the output file; the    *)
+(*                         logs directory is removed; a regular file is    *)
+(*                         put in its place and taken away again) and the  *)
+(*                         cycles that follow: lines vanish only from      *)
+(*                         under a detached logger, and a rotation with    *)
+(*                         logs/ missing makes it again (Recovers)         *)
+(* MC_FileLogger_duo.cfg   two loggers with the same id and name in one    *)
+(*                         home (one file, two writers) that take turns    *)
+(*                         (Switch), one external fault                    *)
 (* MC_FileLogger_asis.cfg  Design = "asis" (close, then open -- what golib *)
 (*                         did before the C17 repair): TLC refutes         *)
 (*                         LinesWholeInOrder (a line logged between close  *)
@@ -18,10 +29,11 @@
 (***************************************************************************)
 EXTENDS FileLogger
 
-CONSTANTS MaxLogs, MaxCycles, MaxAdv, MaxReads, MaxExt
+CONSTANTS MaxLogs, MaxCycles, MaxAdv, MaxReads, MaxExt, MaxFaults, MaxLoggers, MaxSwitch
 
-VARIABLES calls, cycles, advs, reads, exts
-cnt == <<calls, cycles, advs, reads, exts>>
+VARIABLES calls, cycles, advs, reads, exts, faults, switches,
+          fday       \* the day of the last external fault (-1: none)
+cnt == <<calls, cycles, advs, reads, exts, faults, switches, fday>>
 mcvars == <<vars, cnt>>
 
 Id    == <<119>>                 \* "w"
@@ -52,15 +64,15 @@ Beyond  == (Logs2 \o <<47>> \o TenFile :> <<9, 9, 9>>) @@ (TenFile :> <<8, 8>>) 
 
 MCBanner == BannerOf(Oname, now, St, St, St, <<48>>)
 
-MCInit == /\ now = T0
-          /\ conf = [level |-> 2, iv |-> 10, keep |-> 7, rot |-> TRUE, id |-> <<>>, oname |-> <<>>]
+MCInit == /\ now = T0 /\ logsSt = "dir" /\ self = 1 /\ parked = EmptyFn /\ att = TRUE
+          /\ conf = Conf0
           /\ files = (OldOwn :> <<111>>) @@ (EdgeOwn :> <<101>>) @@ (YoungOwn :> <<121>>) @@ (Foreign :> <<102>>)
                      @@ (BadDate :> <<98>>) @@ (TenFile :> Ten)
           /\ dirs = {} /\ links = MCLinks /\ cur = Closed /\ lastDay = 0 /\ lastRot = TRUE
           /\ retainAt = T0 /\ recent = EmptyFn /\ phase = "new" /\ bleft = 0
-          /\ acc = 0 /\ wrote = EmptyFn /\ gone = {} /\ fresh = FALSE /\ supp = NoSupp
+          /\ acc = 0 /\ wrote = EmptyFn /\ gone = {} /\ fresh = FALSE /\ vanished = {} /\ faulted = FALSE /\ supp = NoSupp
           /\ deleted = {} /\ rd = NoRead
-          /\ calls = 0 /\ cycles = 0 /\ advs = 0 /\ reads = 0 /\ exts = 0
+          /\ calls = 0 /\ cycles = 0 /\ advs = 0 /\ reads = 0 /\ exts = 0 /\ faults = 0 /\ switches = 0 /\ fday = -1
 
 Msgs == {<<97>>}
 Pids == {<<120>>}
@@ -68,23 +80,25 @@ Live == reads = 0                    \* a Read is a leaf of the exploration
 
 MCOpen == Live /\ Open(Id, Oname, 2, MCBanner) /\ UNCHANGED cnt
 
-MCLog == /\ Live /\ calls < MaxLogs /\ calls' = calls + 1 /\ UNCHANGED <<cycles, advs, reads, exts>>
+MCLog == /\ Live /\ calls < MaxLogs /\ calls' = calls + 1 /\ UNCHANGED <<cycles, advs, reads, exts, faults, switches, fday>>
          /\ \E kind \in {"W", "I", "P"}, s \in Msgs, pid \in Pids :
               \/ LogDrop(kind)
               \/ LogSuppress(kind, pid, s)
               \/ LogEmit(kind, pid, s, St, 2)
               \/ LogLose(kind, pid, s)
+              \/ LogVanish(kind, pid, s)
 
-MCAdvance == /\ Live /\ phase # "new" /\ advs < MaxAdv /\ advs' = advs + 1 /\ UNCHANGED <<calls, cycles, reads, exts>>
+MCAdvance == /\ Live /\ phase # "new" /\ advs < MaxAdv /\ advs' = advs + 1 /\ UNCHANGED <<calls, cycles, reads, exts, faults, switches, fday>>
              /\ \E dt \in {1000, 61000} : AddMs(now, dt).d <= D0 + 1 /\ Advance(AddMs(now, dt))
 
 MCCycle == /\ Live
-           /\ \/ /\ cycles < MaxCycles /\ cycles' = cycles + 1 /\ UNCHANGED <<calls, advs, reads, exts>>
+           /\ \/ /\ cycles < MaxCycles /\ cycles' = cycles + 1 /\ UNCHANGED <<calls, advs, reads, exts, faults, switches, fday>>
                  /\ \E ran \in BOOLEAN :
                       \/ CycleA("none", <<>>, {}, ran)
                       \/ Design = "repaired" /\ CycleA("swap", MCBanner, {}, ran)
                       \/ Design = "repaired" /\ CycleA("swap", <<>>, {}, ran)
                       \/ Design = "asis" /\ CycleA("close", <<>>, {}, ran)
+                      \/ CycleA("down", <<>>, {}, ran)
               \/ /\ UNCHANGED cnt
                  /\ \/ CycleB(<<>>) \/ CycleB(MCBanner)
                     \/ BannerLine(St \o <<NL>>)
@@ -95,7 +109,7 @@ MCConf == /\ Live /\ cycles < MaxCycles /\ calls = 0 /\ conf.keep = 7
           /\ \E rot \in BOOLEAN : Configure(2, 2, 2, rot)
           /\ UNCHANGED cnt
 
-MCExt == /\ Live /\ exts < MaxExt /\ exts' = exts + 1 /\ UNCHANGED <<calls, cycles, advs, reads>>
+MCExt == /\ Live /\ exts < MaxExt /\ exts' = exts + 1 /\ UNCHANGED <<calls, cycles, advs, reads, faults, switches, fday>>
          /\ ExternalFile(NonDate, <<110>>)
 
 \* r  ../r  s/../r  /r  q  ""   ../logs2/r  ../logs/r  l/r  l  k  j
@@ -104,21 +118,41 @@ ReadNames == {TenFile, <<46, 46, 47>> \o TenFile, <<115, 47, 46, 46, 47>> \o Ten
               <<108, 47>> \o TenFile, <<108>>, <<107>>, <<106>>}
 Wide == calls + cycles + advs + exts = 0
 \* the reference answer; where the statement leaves the answer open (a symbolic link), no answer as well
-MCRead == /\ phase = "run" /\ reads < MaxReads /\ reads' = reads + 1 /\ UNCHANGED <<calls, cycles, advs, exts>>
+MCRead == /\ phase = "run" /\ reads < MaxReads /\ reads' = reads + 1 /\ UNCHANGED <<calls, cycles, advs, exts, faults, switches, fday>>
           /\ \E f \in (IF Wide THEN ReadNames ELSE {cur, <<46, 46, 47>> \o TenFile}),
                 e \in (IF Wide THEN -1..11 ELSE {-1, 25}),
                 ln \in (IF Wide THEN -1..12 ELSE {30}) :
                LET a == ReadAnswer(f, e, ln, Beyond) IN
-                 \/ Read(f, e, ln, IF a.nil THEN [nil |-> TRUE] ELSE [nil |-> FALSE, before |-> a.before, text |-> a.text], <<>>, <<>>, Beyond)
-                 \/ a.und /\ Read(f, e, ln, [nil |-> TRUE], <<>>, <<>>, Beyond)
+                 \/ Read(f, e, ln, IF a.nil THEN [nil |-> TRUE] ELSE [nil |-> FALSE, before |-> a.before, text |-> a.text], <<>>, <<>>, Beyond, logsSt)
+                 \/ a.und /\ Read(f, e, ln, [nil |-> TRUE], <<>>, <<>>, Beyond, logsSt)
+                 \/ logsSt = "none" /\ Read(f, e, ln, [nil |-> TRUE], <<>>, <<>>, Beyond, "dir")
 
-MCNext == MCOpen \/ MCLog \/ MCAdvance \/ MCCycle \/ MCConf \/ MCExt \/ MCRead
+\* somebody else: one byte appended to the output file / the output file or another own file removed /
+\* the output file or the ten-byte file cut short / logs/ removed / a regular file in its place / taken away again
+MCFault == /\ Live /\ faults < MaxFaults /\ faults' = faults + 1 /\ UNCHANGED <<calls, cycles, advs, reads, exts, switches>> /\ fday' = now.d
+           /\ \/ cur # Closed /\ ExternalAppend(cur, <<120>>)
+              \/ \E n \in {cur, YoungOwn} : ExternalRemove(n)
+              \/ \E n \in {cur, TenFile} : ExternalTruncate(n, 0)
+              \/ ExternalRemoveLogs
+              \/ ExternalBlock
+              \/ ExternalUnblock
+
+\* another logger of the same home takes its turn (a new one is constructed by MCOpen: same id, same name)
+MCSwitch == /\ Live /\ switches < MaxSwitch /\ switches' = switches + 1 /\ UNCHANGED <<calls, cycles, advs, reads, exts, faults, fday>>
+            /\ \E i \in 1..MaxLoggers : Switch(i)
+
+MCNext == MCOpen \/ MCLog \/ MCAdvance \/ MCCycle \/ MCConf \/ MCExt \/ MCRead \/ MCFault \/ MCSwitch
 MCSpec == MCInit /\ [][MCNext]_mcvars
 
 \* retention leaves everything that is not an own dated file past keep-days
-SurvivorsSurvive == /\ Survivors \subseteq DOMAIN files
+SurvivorsSurvive == faults = 0 =>
+                    /\ Survivors \subseteq DOMAIN files
                     /\ (exts > 0 => NonDate \in DOMAIN files)
-                    /\ (conf.keep = 7 /\ now.d = D0 => EdgeOwn \in DOMAIN files)
+                    /\ (switches = 0 /\ conf.keep = 7 /\ now.d = D0 => EdgeOwn \in DOMAIN files)
 \* after a completed cycle in which retention was due, the old own file is gone
-OldRemoved == (phase = "run" /\ cycles > 0 /\ retainAt # T0 /\ conf.rot) => OldOwn \notin DOMAIN files
+OldRemoved == (phase = "run" /\ cycles > 0 /\ retainAt # T0 /\ conf.rot /\ switches = 0 /\ faults = 0) => OldOwn \notin DOMAIN files
+\* whatever was taken away on an earlier day: once a cycle has completed since the date changed and no regular
+\* file stood where logs/ should be, the logger is on the file of the day again, and that file exists
+Recovers == (phase = "run" /\ fresh /\ fday < now.d) =>
+              (att /\ logsSt = "dir" /\ cur = NameOf(conf, conf.rot, now.d) /\ cur \in DOMAIN files)
 =============================================================================
